@@ -35,7 +35,9 @@ CLAIM = dict(
          "ipaddress, ipnetwork, uri, POSIX path), lists of these and unset fields; one record line read back with a "
          "registry binding its identifier gives the record itself; the WHOLE STREAM for every sequence of well-typed "
          "records of any mix of descriptors and EVERY descriptor-hash function (collisions included) reads back "
-         "record for record, each with its own descriptor (descriptor line precedes first use); keys = slots (+ the "
+         "record for record, each with its own descriptor (descriptor line precedes first use), also when writes "
+         "RAISE in between after the packer registered the descriptor and the caller carries on "
+         "(C14_stream_roundtrip_failed_writes); keys = slots (+ the "
          "two markers iff descriptors enabled); descriptors off: the fallback yields json/record with the declared "
          "fields in order holding every scalar JSON value written. Tie: extracted pack_obj order / markers / base64 "
          "type table / fallback table (decide) + correspondence of parsed documents, reader output and fallback "
